@@ -502,6 +502,49 @@ pub fn num_all<V: Vec1View<f64>, V2: Vec1View<f64>, const N: usize>(a: &V, b: &V
     k_resid_skew::<V, V2, N>(a, b, w, mp);
 }
 
+/// caller-supplied ndarray out buffer that is NOT contiguous (every second slot of a larger array, sentinel-filled): the
+/// driver writes exactly the slots of the view, each once — every view slot holds the value the returned path gives, the slots
+/// in between keep the sentinel (added after seeded change C10-m4; the instrumented container of the other harnesses cannot see
+/// a defect of the real ndarray out container)
+pub fn out_nd_strided<const N: usize, const M: usize>() {
+    let xs: [i32; N] = kani::any();
+    let v: Vec<i32> = xs.to_vec();
+    let w = any_window::<N>(1);
+    let ret: Vec<(Option<i32>, i32)> = v.rolling_apply(w, |rm, x| (rm, x), None).unwrap();
+    let mut big: Array1<MaybeUninit<(Option<i32>, i32)>> = Array1::from_elem(M, MaybeUninit::new((None, -77)));
+    {
+        let view = big.slice_mut(s![..;2]);
+        let r = v.rolling_apply::<Array1<(Option<i32>, i32)>, _, _>(w, |rm, x| (rm, x), Some(view));
+        assert!(r.is_none(), "rolling_apply out: nothing returned");
+    }
+    let mut i = 0;
+    while i < N {
+        let got = unsafe { big[2 * i].assume_init() };
+        assert!(got == ret[i], "strided ndarray out: every slot of the view is written with the value of the returned path");
+        if 2 * i + 1 < M {
+            let gap = unsafe { big[2 * i + 1].assume_init() };
+            assert!(gap == (None, -77), "strided ndarray out: slots outside the view are not written");
+        }
+        i += 1;
+    }
+    kani::cover!(w < N, "window shorter than the series");
+}
+
+#[kani::proof]
+#[kani::stub(std::fmt::format, crate::util::fmt_stub)]
+#[kani::unwind(10)]
+pub fn c10_out_nd_strided_n2() {
+    out_nd_strided::<2, 4>();
+}
+
+#[cfg(feature = "thorough")]
+#[kani::proof]
+#[kani::stub(std::fmt::format, crate::util::fmt_stub)]
+#[kani::unwind(10)]
+pub fn c10_out_nd_strided_n3() {
+    out_nd_strided::<3, 6>();
+}
+
 /// second series LONGER than the first (it passes the drivers' length assert): every unchecked index still has to stay
 /// below the length of the FIRST series and every output slot is written once (added after seeded change C10-m1)
 pub fn long2<const N: usize, const M: usize>() {
